@@ -295,5 +295,11 @@ def rule_s5(repo):
     return res
 
 
+def rule_s6(repo):
+    """Applying a suggestion splices lines into the proof and renumbers what follows (see C13.A10)."""
+    from .c13 import renumbering_rule
+    return renumbering_rule(repo, 'C14.S6')
+
+
 def rules(repo):
-    return [rule_s1(repo), rule_s2(repo), rule_s3(repo), rule_s4(repo), rule_s5(repo)]
+    return [rule_s1(repo), rule_s2(repo), rule_s3(repo), rule_s4(repo), rule_s5(repo), rule_s6(repo)]
